@@ -2,6 +2,7 @@
    S <id> <class params> | <N keep bram bdisk> | <ops>      or      V <id> <function> <args>
    The id is <component>:<serial>; components are named in DESIGN.md 7.2."""
 import random
+import re
 import itertools
 
 COSTS = [(1, 1, 2, 2), (1, 1, 0, 0), (2, 1, 1, 5), (1, 3, 5, 1), (3, 2, 1, 1), (1, 1, 0, 1), (1, 2, 0, 3), (2, 1, 3, 0), (3, 1, 6, 6), (1, 4, 2, 2), (4, 1, 2, 9), (2, 3, 7, 4), (1, 1, 9, 9)]
@@ -149,6 +150,22 @@ def generate(seed, tier):
     g.twolevel(900, 64, 3, "RAM", "max", 2, comp="stream.twolevel.cold")
     g.rev("revolve", 240, 3, 0, COSTS[0], comp="stream.revolve.cold")
     g.rev("hrevolve", 120, 2, 2, COSTS[0], comp="stream.hrevolve.cold")
+    # driven the documented way: `for action in schedule: ...; break` at EndReverse, one for-loop per adjoint calculation, then
+    # next() again (the model's Run is the same thing; what differs is the iteration protocol of the implementation)
+    k0 = len(g.cases)
+    for kind, N in (("none", 2), ("mem", 1), ("mem", 3), ("disk0", 2), ("disk0", 4), ("disk1", 3)):
+        g.basic(kind, N, 3, comp="stream.basic.forloop")
+    g.twolevel(7, 3, 2, "RAM", "max", 3, comp="stream.twolevel.forloop")
+    g.twolevel(5, 2, 1, "DISK", "rev", 3, comp="stream.twolevel.forloop")
+    g.twolevel(3, 1, 0, "DISK", "max", 2, comp="stream.twolevel.forloop")
+    g.multistage(6, 1, 1, "max", comp="stream.multistage.forloop")
+    g.mixed(6, 2, "RAM", "memo", comp="stream.mixed.forloop")
+    g.mixed(5, 2, "DISK", "tab", comp="stream.mixed.forloop")
+    g.rev("revolve", 6, 2, 0, COSTS[0], comp="stream.revolve.forloop")
+    g.rev("disk", 8, 1, 0, COSTS[0], comp="stream.disk.forloop")
+    g.rev("hrevolve", 7, 1, 1, COSTS[0], comp="stream.hrevolve.forloop")
+    for i in range(k0, len(g.cases)):
+        g.cases[i] = re.sub(r" r(\d+):(\d+)", lambda m: " " + " ".join(["l1:%s" % m.group(2)] * int(m.group(1))), g.cases[i])
     # ---------------- Revolve family
     NN, RR, DD = (22, 4, 3) if thorough else (14, 3, 2)
     costs = COSTS if thorough else COSTS[:9]
@@ -184,6 +201,12 @@ def generate(seed, tier):
         g.rev("disk", N, r, 0, c)
         g.rev("periodic", N, r, 0, c)
         g.rev("hrevolve", N, r, rng.randint(0, 5), c)
+    # step indices beyond 256 (CPython caches the int objects -5..256: an identity comparison of step numbers behaves like == below
+    # that and fails above) and beyond the small random sizes, all four classes
+    for kind, N, r, d, c in [("revolve", 300, 5, 0, COSTS[0]), ("revolve", 280, 2, 0, (2, 3, 2, 2)), ("disk", 300, 4, 0, COSTS[0]),
+                             ("periodic", 300, 3, 0, COSTS[0]), ("hrevolve", 270, 3, 2, COSTS[0])] + \
+                            ([("revolve", 420, 7, 0, COSTS[0]), ("hrevolve", 330, 2, 4, (1, 1, 1, 3)), ("disk", 380, 2, 0, (3, 1, 1, 1))] if thorough else []):
+        g.rev(kind, N, r, d, c)
     # ---------------- constructor box around the domain boundary (C17)
     for N in range(0, 7):
         for u in range(0, N + 3):
